@@ -153,6 +153,14 @@ class FakeResponse:
             self.headers.setdefault("Transfer-Encoding", "chunked")
         else:
             self.headers.setdefault("Content-Length", str(len(wire)))
+        lm = (world.knobs.get("http_last_modified") if world is not None and hasattr(world, "knobs") else None)
+        if lm and status_code in (200, 206):
+            # what servers send with every object: when it last changed on the server - years ago, or (a server whose
+            # clock is ahead) in the future.  It says nothing about when the CACHE last used its copy (seeded change s201)
+            self.headers.setdefault("Last-Modified", {"past": "Tue, 15 Jun 2010 08:12:31 GMT",
+                                                      "future": "Fri, 01 Jan 2038 00:00:00 GMT"}[lm])
+            self.headers.setdefault("ETag", '"%08x"' % (len(content) * 2654435761 % 2**32))
+            self.headers.setdefault("Date", "Thu, 01 Jun 2023 00:00:00 GMT")
         self.raw = _RawBody(self, wire)
         self.reason = {200: "OK", 206: "Partial Content", 404: "Not Found", 500: "Internal Server Error",
                        503: "Service Unavailable", 410: "Gone", 403: "Forbidden", 401: "Unauthorized",
